@@ -96,6 +96,16 @@ def run(ctx):
         out_args = ["-o", "{dir}/" + o1]
         if layout == "paired":
             out_args += ["-p", f"{{dir}}/o2.{name}{outc}"]
+        # a second output stream (reads without adapter) in the same layout as the main one
+        with_ut = rng.random() < 0.4
+        bout_ut = []
+        if with_ut:
+            out_args += ["--untrimmed-output", f"{{dir}}/u1.{name}{outc}"]
+            bout_ut = ["--untrimmed-output", "{dir}/baseu1." + name]
+            if layout == "paired":
+                out_args += ["--untrimmed-paired-output", f"{{dir}}/u2.{name}{outc}"]
+            if paired:
+                bout_ut += ["--untrimmed-paired-output", "{dir}/baseu2." + name]
         res, out = run_one(common + out_args + in_args, inputs, cores)
         ctx.evaluations += 1
         cell = dict(input_container=inc, output_container=outc, name=name, layout=layout, cores=cores, input_format=infmt)
@@ -113,7 +123,7 @@ def run(ctx):
             binputs["b2." + infmt] = ser(r2)
             bargs.append("{dir}/b2." + infmt)
             bout += ["-p", "{dir}/base2." + name]
-        bres, bfiles = run_one(common + bout + bargs, binputs, 1)
+        bres, bfiles = run_one(common + bout + bout_ut + bargs, binputs, 1)
         brecs1 = clirun.parse_fastx(bfiles["base1." + name])
         brecs2 = clirun.parse_fastx(bfiles["base2." + name]) if paired else None
         got1 = clirun.parse_fastx(out[o1])
@@ -135,6 +145,23 @@ def run(ctx):
             got2 = clirun.parse_fastx(out[f"o2.{name}{outc}"])
             if strip(got2) != strip(brecs2):
                 ctx.failures.append(Failure("C19/records-differ", "R2 records differ from the plain single-core run", cell, got2[:3], brecs2[:3]))
+        if with_ut:
+            gu1 = clirun.parse_fastx(out[f"u1.{name}{outc}"])
+            bu1 = clirun.parse_fastx(bfiles["baseu1." + name])
+            if layout == "interleaved":
+                bu2 = clirun.parse_fastx(bfiles["baseu2." + name])
+                expu = [r for p_ in zip(bu1, bu2) for r in p_]
+            else:
+                expu = bu1
+            if strip(gu1) != strip(expu):
+                ctx.failures.append(Failure("C19/records-differ", "the untrimmed output differs from the plain two-file single-core run",
+                                            dict(cell, untrimmed_output=True), gu1[:3], expu[:3]))
+            if layout == "paired":
+                gu2 = clirun.parse_fastx(out[f"u2.{name}{outc}"])
+                if strip(gu2) != strip(clirun.parse_fastx(bfiles["baseu2." + name])):
+                    ctx.failures.append(Failure("C19/records-differ", "the untrimmed R2 output differs from the plain two-file single-core run",
+                                                dict(cell, untrimmed_output=True), gu2[:3], None))
+            ctx.count("with-untrimmed-output")
         if got1:
             ctx.nontriv(str(cell))
         ctx.count(f"in{inc or '.plain'}")
